@@ -113,6 +113,17 @@ Theorem C15_letters : forall left right x,
 Proof. exact classify_spec. Qed.
 Print Assumptions C15_letters.
 
+(* success(target) holds exactly when some frame's progress coordinate lies strictly above
+   the target; it is undefined only for the empty path *)
+Theorem C15_success : forall p t b,
+  success p t = Some b -> (b = true <-> exists x, In x (orders p) /\ t < x).
+Proof. exact success_spec. Qed.
+Print Assumptions C15_success.
+
+Theorem C15_success_defined : forall p t, success p t = None <-> pts p = [].
+Proof. exact success_defined. Qed.
+Print Assumptions C15_success_defined.
+
 (* whole frames.  [ftag] is the opaque payload of a frame: every attribute of the System
    object other than order[0] and vel_rev (the check encodes ALL of vars(frame) into it), so
    each statement below holds for arbitrary contents of those other fields. *)
@@ -167,6 +178,7 @@ Example C15_example :
   map ford (pts (paste back forw true (Some 4%nat))) = [1; 2; 3; 4] /\
   (plen back <= maxlen back)%nat /\
   check_interfaces (paste back forw true (Some 10%nat)) [2; 4; 8] <> None /\
+  success forw 8 = Some true /\ success forw 9 = Some false /\
   map ftag (pts (reverse 7 back true)) = [3; 2; 1] /\ map frev (pts (reverse 7 back true)) = [true; true; true] /\
   map foid (pts (copy 7 back)) = [7; 8; 9]%nat.
 Proof. cbn. repeat split; try lia; discriminate. Qed.
